@@ -69,6 +69,29 @@ def run(tier, seed):
         if out["status"] == "ok":
             decide(ctx, drv, c["generator"], c["args"], c["chebyshev_basis"], out["coefs"], bound_for(c["generator"], c["args"]),
                    {"generator": c["generator"], "args": c["args"], "chebyshev_basis": c["chebyshev_basis"]})
+    # structured sweep: sharp targets relative to the degree (overshoot lobes of comparable height,
+    # where a maximiser that is not global picks the wrong lobe)
+    sweep = []
+    for deg in ((7, 9, 11, 13, 15, 19, 21) if tier == "quick" else range(5, 40, 2)):
+        for c in (0.35, 0.5, 0.75):
+            sweep.append(("sign", {"degree": deg, "delta": max(1.0, round(c * deg, 2))}))
+    for deg in ((8, 12, 16, 20) if tier == "quick" else range(6, 40, 2)):
+        for c in (0.35, 0.5, 0.75):
+            sweep.append(("threshold", {"degree": deg, "delta": max(1.0, round(c * deg, 2))}))
+            sweep.append(("phase_estimation", {"degree": deg, "delta": max(1.0, round(c * deg, 2))}))
+        sweep.append(("gibbs", {"degree": deg, "beta": float(deg) / 2}))
+        sweep.append(("linear_amplification", {"degree": deg + 1, "gamma": 0.2, "kappa": float(deg)}))
+    for name, args in sweep:
+        for cb in ((True, False) if args["degree"] <= 24 else (True,)):
+            a = dict(args)
+            a["max_scale"] = 1.0 if rng.random() < 0.5 else float(rng.uniform(0.2, 1.0))
+            if cb:
+                a["cheb_samples"] = int(max(20, 2 * a["degree"] + 2))
+            out = G.call(PL, name, a, True, False, cb)
+            ctx.count("sweep:" + name)
+            ctx.case(["sweep", name, a, cb], True, {"generator": name, "args": a, "chebyshev_basis": cb, "status": out["status"], "sweep": True})
+            if out["status"] == "ok":
+                decide(ctx, drv, name, a, cb, out["coefs"], bound_for(name, a), {"generator": name, "args": a, "chebyshev_basis": cb})
     for name in G.REG:
         fam = G.REG[name][1]
         if fam == "invrect":
